@@ -34,6 +34,7 @@ EXPLANATION = (
     'and ownership-tag test dominate selection), term-level agreement of the ownership-tag relation between the location builders and the two readers, '
     'shape of the delete set (selected minus kept, deleted as a whole), exception discipline around deletions. Rules C08.R1-R5.'
     ' Added with the seeded-defect rounds: in clean a listed chunk stays out of the deletion only through the referenced test or the tag test, local listing error discipline, complete pagination and bounded retry of the listings, deletion confinement, Local.clean removes empty directories only.'
+    ' Round 6: adapter delete discipline, local listing follows links through a delegated scan helper, Local.clean removes with rmdir only.'
 )
 NOT_DECIDED = 'completeness after arbitrary histories (reachable repository states); that location builder and parser are inverse for all hex strings'
 TRUSTED = ['CPython ast', 'backend.list_files(prefix) returns only names starting with prefix']
